@@ -21,10 +21,11 @@ CALL_GUARDS = {
     "on_dup_update": [("mysql_update_after_ignore", QE)], "on_dup_ignore": [("mysql_ignore_after_update", QE)],
     "on_conflict": [("pg_on_conflict_non_insert", QE)], "do_nothing": [("pg_do_nothing_after_update", QE)],
     "do_update": [("pg_do_update_after_nothing", QE)], "where": [("pg_do_nothing_where", QE)],
-    "returning": [("pg_returning", QE)], "top": [("mssql_top_int", QE)], "render": [("pg_conflict_no_handler", QE)],
+    "returning": [("pg_returning", QE)], "top": [("mssql_top_int", QE)],
+    "render": [("join_unknown_with_query", JE), ("pg_conflict_no_handler", QE)],
     "create_table": [("create_table_once", AE)], "primary_key": [("primary_key_once", AE)],
     "foreign_key": [("foreign_key_once", AE)], "as_select": [("as_select_after_columns", AE), ("as_select_type", TE)],
-    "local": [("vertica_local_requires_temporary", AE)], "preserve_rows": [("vertica_preserve_rows_requires_temporary", AE)],
+    "unlogged": [("vertica_unlogged", AE)], "local": [("vertica_local_requires_temporary", AE)], "preserve_rows": [("vertica_preserve_rows_requires_temporary", AE)],
     "drop": [("drop_target_once", AE)], "on_cluster": [("on_cluster_once", AE)],
     "for": [("table_for_once", AE)], "for_portion": [("table_for_once", AE)],
     "rows": [("window_frame_once", AE)], "range": [("window_frame_once", AE)],
@@ -56,7 +57,8 @@ class QSpec:
         self.pg = cls == "PostgreSQLQuery"
         self.my = cls == "MySQLQuery"
         self.ms = cls == "MSSQLQuery"
-        self.frm, self.withs, self.joins = [], [], []      # joins: (item, criterion tables or None)
+        self.frm, self.withs, self.joins = [], [], []      # joins: (item, criterion tables or None, WITH references)
+        self.values = self.assigned = False
         self.insert = self.update = None
         self.delete = False
         self.nsel, self.star = 0, False
@@ -81,13 +83,13 @@ class QSpec:
                 return False        # a statement with both an INSERT and an UPDATE target is no statement
             if any(t[0] == "str" for t in terms) and not (self.insert or self.update) and self.delete and not self.frm:
                 return False
-            if any(t[0] == "str" or rfields(t) for t in terms) and any(cr is None for _, cr in self.joins):
+            if any(t[0] == "str" or rfields(t) for t in terms) and any(j[1] is None for j in self.joins):
                 return False        # reads join.criterion of a USING / CROSS join
         return True
 
     # -- sources a join criterion may name --
     def _sources(self, item):
-        s = [T(item)] + [T(t) for t in self.frm] + [T(t) for t in self.withs] + [T(j) for j, _ in self.joins]
+        s = [T(item)] + [T(t) for t in self.frm] + [T(t) for t in self.withs] + [T(j[0]) for j in self.joins]
         if self.update is not None:
             s.append(T(self.update))
         return s
@@ -121,7 +123,8 @@ class QSpec:
                 src = self._sources(item)
                 for pair in h[1]:
                     for tref, _ in pair:
-                        if tref is not None and T(tref) not in src:
+                        # a reference to a WITH query is judged when the statement is rendered (with_() may follow)
+                        if tref is not None and tref[0] != "alq" and T(tref) not in src:
                             return "join_foreign_table", JE
         if k == "on_dup_update" and self.ignore:
             return "mysql_update_after_ignore", QE
@@ -141,6 +144,11 @@ class QSpec:
                 return "pg_do_nothing_where", QE
             if self.cfields == 0:
                 return "pg_fieldless_where", QE
+        if k == "render" and self.is_statement():
+            known = [T(t) for t in self.withs] + [T(t) for t in self.frm] + [T(j[0]) for j in self.joins]
+            for j in self.joins:
+                if any(T(a) not in known for a in j[2]):
+                    return "join_unknown_with_query", JE
         if k == "render" and self.pg:
             if self.cfields > 0 and not self.nothing and self.cupdates == 0:
                 return "pg_conflict_no_handler", QE
@@ -173,6 +181,16 @@ class QSpec:
                 out.append(t)
         return out
 
+    def is_statement(self):
+        """str() of an incomplete statement is the empty string: nothing is rendered, nothing is checked"""
+        if not (self.nsel > 0 or self.insert is not None or self.delete or self.update is not None):
+            return False
+        if self.insert is not None and not (self.nsel > 0 or self.values):
+            return False
+        if self.update is not None and not self.assigned:
+            return False
+        return True
+
     def is_dml(self):
         return self.insert is not None or self.update is not None or self.delete
 
@@ -186,8 +204,8 @@ class QSpec:
             return True
         if t in [T(x) for x in self.frm]:
             return True
-        for _, cr in self.joins:
-            if cr and t in [T(x) for x in cr]:
+        for j in self.joins:
+            if j[1] and t in [T(x) for x in j[1]]:
                 return True
         return False
 
@@ -218,6 +236,10 @@ class QSpec:
                         self.nsel += 1
                 else:
                     self.nsel += 1
+        elif k == "insert":
+            self.values = self.values or len(c[1]) > 0
+        elif k == "set":
+            self.assigned = True
         elif k == "groupby":
             self.grouped = self.grouped or c[1] > 0
         elif k == "rollup":
@@ -230,14 +252,23 @@ class QSpec:
             item, h = list(c[1]), c[2]
             base = [T(t) for t in self.frm] + [T(t) for t in self.withs] + ([T(self.update)] if self.update is not None else [])
             if item[0] == "tab" and item[3] is None and T(item) in base:
-                item[3] = item[1] + "2"       # documented: joining the FROM table again without alias gets "<name>2"
+                # documented: joining a base table again without alias gets the first free name "<name>2", "<name>3", ...
+                names = {(t[3] or t[1]) if t[0] == "tab" else t[1]
+                         for t in list(self.frm) + list(self.withs) + ([self.update] if self.update is not None else [])
+                         + [j[0] for j in self.joins]}
+                n = 2
+                while "%s%d" % (item[1], n) in names:
+                    n += 1
+                item[3] = "%s%d" % (item[1], n)
             if h[0] == "on":
-                crit = [tr for pair in h[1] for tr, _ in pair if tr is not None and tr[0] == "tab"]
+                refs = [tr for pair in h[1] for tr, _ in pair if tr is not None]
             elif h[0] == "on_field":
-                crit = [t for t in [self.frm[0], c[1]] if t[0] == "tab"]
+                refs = [self.frm[0], c[1]]
             else:
-                crit = None
-            self.joins.append((item, crit))
+                refs = None
+            crit = None if refs is None else [t for t in refs if t[0] == "tab"]
+            alqs = [] if refs is None else [t for t in refs if t[0] == "alq"]
+            self.joins.append((item, crit, alqs))
         elif k == "on_dup_update":
             self.dups += 1
         elif k == "on_dup_ignore":
@@ -330,7 +361,7 @@ class CSpec:
         self.pk = self.fk = None      # None or number of columns given
 
     def in_contract(self, c):
-        return self.vertica or c[0] not in ("local", "preserve_rows")
+        return self.vertica or c[0] not in ("local", "preserve_rows")   # unlogged exists on every CREATE builder
 
     def predict(self, c):
         k = c[0]
@@ -347,6 +378,8 @@ class CSpec:
             return "primary_key_once", AE
         if k == "foreign_key" and self.fk is not None:
             return "foreign_key_once", AE
+        if k == "unlogged" and self.vertica:
+            return "vertica_unlogged", AE       # Vertica has no UNLOGGED tables
         if k == "local" and not self.temporary:
             return "vertica_local_requires_temporary", AE
         if k == "preserve_rows" and not self.temporary:
